@@ -88,7 +88,7 @@ func Analyze(o *Obs, p *pgen.Program) (*pgen.Model, *Report) {
 				prop = "C03"
 				what = fmt.Sprintf("stage call %s %s is enabled (args %s) but no job of it was executed", inv.Path, inv.Context, short(mapOf(inv.Args)))
 			}
-			r.add(prop, "args:"+classify(p, inv.Path)+aliasSuffix(p, m, inv.Path), what, nil)
+			r.add(prop, "args:"+classify(p, inv.Path)+aliasSuffix(p, m, inv.Path)+nestedDynSuffix(p, inv.Deps), what, nil)
 			if prop == "C01" {
 				// also a count problem if the number of forks differs
 				continue
@@ -123,7 +123,7 @@ func Analyze(o *Obs, p *pgen.Program) (*pgen.Model, *Report) {
 			prop := "C01"
 			what := fmt.Sprintf("stage call %s fork %s executed with args %s which no binding evaluation denotes; expected: %s",
 				f.CallPath, f.Dir, short(f.Args), strings.Join(expect, " ; "))
-			sig := "unexpected-exec:" + classify(p, f.CallPath) + aliasSuffix(p, m, f.CallPath)
+			sig := "unexpected-exec:" + classify(p, f.CallPath) + aliasSuffix(p, m, f.CallPath) + nestedDynSuffix(p, depsOfPath(m, f.CallPath))
 			if len(expect) == 0 {
 				prop = "C03"
 				what = fmt.Sprintf("stage call %s fork %s executed (args %s) although the call is disabled or has no fork for it",
@@ -575,6 +575,34 @@ func aliasSuffix(p *pgen.Program, m *pgen.Model, callPath string) string {
 	return ""
 }
 
+// nestedDyn: a stage call sits under two or more map call levels at least one
+// of which has a run-time size.
+func nestedDyn(p *pgen.Program, callPath string) bool {
+	c := classify(p, callPath)
+	levels := strings.Count(c, "L") + strings.Count(c, "D")
+	return levels >= 2 && strings.Contains(c, "D")
+}
+
+// nestedDynSuffix marks values that are merged from the forks of such a call.
+func nestedDynSuffix(p *pgen.Program, deps []*pgen.StageInvocation) string {
+	for _, d := range deps {
+		if nestedDyn(p, d.Path) {
+			return ":merged-from-nested-map-with-run-time-dimension"
+		}
+	}
+	return ""
+}
+
+func depsOfPath(m *pgen.Model, callPath string) []*pgen.StageInvocation {
+	var out []*pgen.StageInvocation
+	for _, inv := range m.Invs {
+		if inv.Path == callPath {
+			out = append(out, inv.Deps...)
+		}
+	}
+	return out
+}
+
 // AliasSuffix is aliasSuffix for other packages.
 func AliasSuffix(p *pgen.Program, m *pgen.Model, callPath string) string {
 	if m == nil {
@@ -631,7 +659,19 @@ func CheckTopOuts(o *Obs, p *pgen.Program, m *pgen.Model, r *Report) {
 			r.add("C01", "top-out-absent", "top-level output "+out.Name+" absent from _outs", nil)
 			continue
 		}
+		n0 := len(r.Findings)
 		compareTop(o, p, r, out.Name, out.Type, exp, gv, tokOf)
+		var deps []*pgen.StageInvocation
+		for d := range m.TopDeps[out.Name] {
+			deps = append(deps, d)
+		}
+		if sfx := nestedDynSuffix(p, deps); sfx != "" {
+			for i := n0; i < len(r.Findings); i++ {
+				if r.Findings[i].Sig == "top-out-value" {
+					r.Findings[i].Sig += sfx
+				}
+			}
+		}
 	}
 }
 
